@@ -70,7 +70,7 @@ int p_c06(void)
 			uint32_t r = nmax - k;
 			uint8_t *G = malloc((size_t)nmax * k + 1);
 			if (rsref_generator(m, k, nmax, G)) rep_fatal("rsref: singular Vandermonde block m=%d k=%u", m, k);
-			int npay = T ? 4 : 2;
+			int npay = T ? 10 : 2;
 			for (int pv = 0; pv < npay; pv++) {
 				uint32_t L = pv == 0 ? (k + 7) / 8 + (k % 3) : LENS[(k + (unsigned)pv * 5) % nl];
 				int payload = pv == 0 ? PAY_IDENTITY : PAY_RANDOM;
@@ -90,7 +90,7 @@ int p_c06(void)
 				} else rs_case(2, 4, k, r, L, payload, nullmask, &rng, G, NULL);
 			}
 			/* shorter codes share rows only by value, so also sample n < 2^m-1 */
-			for (int j = 0; j < (T ? 6 : 2); j++) {
+			for (int j = 0; j < (T ? 24 : 2); j++) {
 				uint32_t r2 = 1 + rng_below(&rng, r);
 				uint8_t *G2 = malloc((size_t)(k + r2) * k + 1);
 				if (rsref_generator(m, k, k + r2, G2)) rep_fatal("rsref: singular (short)");
@@ -113,7 +113,7 @@ int p_c06(void)
 			uint32_t r = rl[ri];
 			rng_t rng = rng_make(g_run.seed, 800 + k, r);
 			for (uint32_t N1 = 3; N1 <= r && N1 <= 10; N1 += (N1 < 6 || T ? 1 : 2))
-				for (int s = 0; s < (T ? 6 : 2); s++) {
+				for (int s = 0; s < (T ? 16 : 2); s++) {
 					uint32_t seed = s < 4 ? seeds[(s + k + r) % 4] : 1 + (uint32_t)(rng_u64(&rng) % 2147483646u);
 					uint32_t L = k > 200 ? 16 : LENS[rng_below(&rng, nl)];
 					ldpc_case(k, r, N1, seed, L, (s & 1) ? PAY_IDENTITY : PAY_RANDOM, (s & 1) ? 0 : rng_u64(&rng) & rng_u64(&rng), &rng);
